@@ -82,7 +82,7 @@ type FuncSpec struct {
 	MFArgs   []Expr
 	SetMF    []GhostUpdate
 	HavocMF  []string // model fields of argument 0 that the call rewrites (new value constrained by ensures)
-	Havoc    []int // argument indexes (receiver is 0) whose object is havoc'd
+	Havoc    []int    // argument indexes (receiver is 0) whose object is havoc'd
 	Effects  []string
 	Modifies []string
 	Sweep    bool
